@@ -229,6 +229,35 @@ func isPrintTable() string {
 	return sb.String()
 }
 
+// runDecStable: decode a stream; each returned value is dumped right after its Decode call and
+// again after the last call: "stable" iff nothing returned earlier was altered later.
+func runDecStable(args []string) string {
+	data := ""
+	if len(args) > 2 {
+		data = unhex(args[2])
+	}
+	dec := ogorek.NewDecoderWithConfig(strings.NewReader(data), &ogorek.DecoderConfig{PyDict: args[0] == "1", StrictUnicode: args[1] == "1"})
+	var vals []any
+	var early []string
+	for i := 0; i < len(data)+3; i++ {
+		v, err := dec.Decode()
+		if err == io.EOF {
+			break
+		}
+		if err != nil {
+			continue
+		}
+		vals = append(vals, v)
+		early = append(early, dumpVal(v))
+	}
+	for i, v := range vals {
+		if late := dumpVal(v); late != early[i] {
+			return fmt.Sprintf("value #%d was %s, now %s", i+1, early[i], late)
+		}
+	}
+	return "stable"
+}
+
 // handleMore: commands beyond decoding.
 func handleMore(f []string) (string, bool) {
 	switch f[0] {
@@ -238,6 +267,8 @@ func handleMore(f []string) (string, bool) {
 		return runLookup(f[1:]), true
 	case "conv":
 		return runConv(f[1:]), true
+	case "decstable":
+		return runDecStable(f[1:]), true
 	case "enc":
 		return runEnc(f[1:]), true
 	case "fmtg":
